@@ -9,6 +9,7 @@ discharge it when the actual arguments refute a guard (this is how
 `limbs[LIMBS-1] <= MASK`, rule D-mask) and *predicates* on parameters that a
 reviewed table row attaches to a kernel site (`nonzero(divisor)`, rule D-zero).
 """
+import re
 from . import absint, ir, panics
 
 MAX_DEPTH = 40
@@ -328,9 +329,66 @@ class Totality:
                     return ("Gt", km, kl, True)
         return None
 
-    def dominated_by_test(self, view, site_block, callee, truth):
+    ORDER_TESTS = {"core::cmp::PartialOrd::lt": "lt", "core::cmp::PartialOrd::le": "le",
+                   "core::cmp::PartialOrd::gt": "gt", "core::cmp::PartialOrd::ge": "ge"}
+    # relation between (first operand X, second operand Y) established by `X op Y == truth`
+    _REL = {("lt", True): "<", ("lt", False): ">=", ("le", True): "<=", ("le", False): ">",
+            ("gt", True): ">", ("gt", False): "<=", ("ge", True): ">=", ("ge", False): "<"}
+    _FLIP = {"<": ">", ">": "<", "<=": ">=", ">=": "<=", }
+    _IMPLIES = {"<": {"<", "<="}, ">": {">", ">="}, "<=": {"<="}, ">=": {">="}}
+
+    def dominated_by_order_test(self, view, site_block, want_op, want_truth, arg_op):
+        """site_block is dominated by an edge that establishes the relation `X want_op Y == want_truth`, where X is
+        the value of arg_op (None: any operand order-preserving spelling), however the comparison is spelled
+        (`a < b` false, `a >= b` true, `b <= a` true ...)."""
+        want = self._REL[(want_op, want_truth)]
+        xroot = self._value_root(view, arg_op) if arg_op is not None else None
+        for b in view.dom.get(site_block, ()):
+            t = view.blocks[b]["term"]
+            if t["t"] != "switch":
+                continue
+            d = t["discr"]
+            if not (d.get("o") in ("copy", "move") and not d["p"]):
+                continue
+            ch = view.chase(d)
+            neg = False
+            if ch[0] == "rv" and ch[1]["r"] == "un" and ch[1]["op"] == "Not":
+                ch = view.chase(ch[1]["a"])
+                neg = True
+            if ch[0] != "call":
+                continue
+            op = self.ORDER_TESTS.get(ch[1]["fn"].get("def"))
+            if op is None or len(ch[1]["args"]) != 2:
+                continue
+            swapped = False
+            if xroot is not None:
+                r0, r1 = self._value_root(view, ch[1]["args"][0]), self._value_root(view, ch[1]["args"][1])
+                if r0 == xroot:
+                    swapped = False
+                elif r1 == xroot:
+                    swapped = True
+                else:
+                    continue
+            for s_ in view.succ.get(b, []):
+                vals = [v_ for v_, bb in t["targets"] if bb == s_]
+                truths = {bool(v_) for v_ in vals}
+                if t["otherwise"] == s_:
+                    truths |= ({True, False} - {bool(v_) for v_, _ in t["targets"]})
+                if len(truths) != 1:
+                    continue
+                tv = truths.pop() != neg
+                rel = self._REL[(op, tv)]
+                if swapped:
+                    rel = self._FLIP[rel]
+                if want in self._IMPLIES[rel] and view.edge_dominates(b, s_, site_block):
+                    return True
+        return False
+
+    def dominated_by_test(self, view, site_block, callee, truth, arg_op=None):
         """site_block is dominated by the `truth` edge of a switch whose discriminant is the result
         of a call to `callee` (side condition of a reviewed table row)."""
+        if callee in self.ORDER_TESTS:
+            return self.dominated_by_order_test(view, site_block, self.ORDER_TESTS[callee], truth, arg_op)
         for b in view.dom.get(site_block, ()):
             t = view.blocks[b]["term"]
             if t["t"] != "switch":
@@ -401,17 +459,25 @@ class Totality:
             if "cond" in req:
                 if conds is None:
                     conds = self.dominating_conditions(view, block)
-                if (req["cond"], req["truth"]) not in conds:
+                if not cond_holds(req["cond"], req["truth"], conds):
                     return False
         return True
 
+    @staticmethod
+    def _root_fn(key):
+        return re.sub(r"(::\{closure#\d+\})+$", "", key)
+
     def _table_row(self, fn_key, kind, what):
-        rows = self.table.get(fn_key)
-        if not rows:
-            return None
-        for r in rows:
-            if r.get("kind", kind) == kind and r.get("what") == what:
-                return r
+        """Reviewed row for a site.  A row belongs to a function *and its closures*: moving a statement between a
+        function body and a closure inside it (iterator chain <-> loop) does not orphan the row."""
+        self._row_owner = fn_key
+        root = self._root_fn(fn_key)
+        owners = [fn_key] + [k for k in self.table if k != fn_key and self._root_fn(k) == root]
+        for owner in owners:
+            for r in self.table.get(owner) or ():
+                if r.get("kind", kind) == kind and r.get("what") == what:
+                    self._row_owner = owner
+                    return r
         return None
 
     # ------------------------------------------------------------------
@@ -697,6 +763,62 @@ class Totality:
                     return "dominated by non-zero test at %s" % view.where(b)
         return None
 
+    def zero_test_edges(self, view, root):
+        """[(block, succ)]: edges of switches on which the Uint / integer local `root` is known to be ZERO
+        (is_zero / == ZERO / != ZERO in either polarity, resolved like the D-zero guards)."""
+        out = []
+        for b in sorted(view.reachable):
+            t = view.blocks[b]["term"]
+            if t["t"] != "switch":
+                continue
+            d = t["discr"]
+            if not (d.get("o") in ("copy", "move") and not d["p"]):
+                continue
+            ch = view.chase(d)
+            neg = False
+            if ch[0] == "rv" and ch[1]["r"] == "un" and ch[1]["op"] == "Not":
+                ch = view.chase(ch[1]["a"])
+                neg = True
+            zero_truth = None
+            if ch[0] == "call":
+                ct = ch[1]
+                spec = self.ZERO_TESTS.get(ir.callee_name(ct["fn"]))
+                if spec is None:
+                    continue
+                kind, truth_means_zero = spec
+                if ir.is_negated_forward(ct["fn"]):
+                    truth_means_zero = not truth_means_zero
+                if kind == "unary":
+                    if self._value_root(view, ct["args"][0]) != root:
+                        continue
+                else:
+                    a, c = ct["args"][0], ct["args"][1]
+                    ra, rc = self._value_root(view, a), self._value_root(view, c)
+                    za, zc = self._const_zero_arg(view, a), self._const_zero_arg(view, c)
+                    if not ((ra == root and zc) or (rc == root and za)):
+                        continue
+                zero_truth = truth_means_zero
+            elif ch[0] == "rv" and ch[1]["r"] == "bin" and ch[1]["op"] in ("Eq", "Ne"):
+                rv = ch[1]
+                ra = self._value_root(view, rv["a"]) if rv["a"].get("o") != "const" else None
+                rb = self._value_root(view, rv["b"]) if rv["b"].get("o") != "const" else None
+                ca, cb = view.const_of_operand(rv["a"]), view.const_of_operand(rv["b"])
+                if not ((ra == root and cb == 0) or (rb == root and ca == 0)):
+                    continue
+                zero_truth = (rv["op"] == "Eq")
+            else:
+                continue
+            if neg:
+                zero_truth = not zero_truth
+            for s_ in view.succ.get(b, []):
+                vals = [v_ for v_, bb in t["targets"] if bb == s_]
+                truths = {bool(v_) for v_ in vals}
+                if t["otherwise"] == s_:
+                    truths |= ({True, False} - {bool(v_) for v_, _ in t["targets"]})
+                if len(truths) == 1 and truths.pop() == zero_truth:
+                    out.append((b, s_))
+        return out
+
     @staticmethod
     def _kill_blocks(view, root):
         """Points that may write local `root`: an assignment to it (also through a projection), a call whose
@@ -846,12 +968,12 @@ class Totality:
                 self.row_failures.append((key, row.get("kind"), row.get("what"), site.where))
                 row = None
             if row is not None:
-                self.table_used.add((key, row.get("kind"), row.get("what")))
+                self.table_used.add((self._row_owner, row.get("kind"), row.get("what")))
                 if row.get("pred"):
                     # the site stays, but with a predicate a caller can discharge
                     p = row["pred"]
                     if p["name"] == "test":
-                        preds.append(("test", p["test"], p["truth"]))
+                        preds.append(("test", p["test"], p["truth"], p.get("param")))
                     else:
                         preds.append((p["name"], p["param"]))
                 else:
@@ -932,7 +1054,7 @@ class Totality:
                         self.row_failures.append((key, "call", row.get("what"), view.where(bi)))
                         row = None
                     if row is not None and not row.get("pred"):
-                        self.table_used.add((key, row.get("kind"), row.get("what")))
+                        self.table_used.add((self._row_owner, row.get("kind"), row.get("what")))
                         self.stats["table"] += 1
                         continue
                     guards = list(self._guards_for(view, a, bi))
@@ -1054,6 +1176,79 @@ class Totality:
                 return True
         return False
 
+    def _str_root(self, view, op):
+        r = self._value_root(view, op)
+        return r
+
+    def _known_boundaries(self, view, site_block, root):
+        """Constant offsets known to be char boundaries <= len of the str `root` at site_block: 0; c on the true edge of
+        a dominating `root.is_char_boundary(c)`; c on the Some edge of a dominating `root.get(..c)` / `root.get(c..)`."""
+        known = {0}
+        for b in view.dom.get(site_block, ()):
+            t = view.blocks[b]["term"]
+            if t["t"] != "switch":
+                continue
+            d = t["discr"]
+            if not (d.get("o") in ("copy", "move") and not d["p"]):
+                continue
+            ch = view.chase(d)
+            bounds, truthy = None, None
+            if ch[0] == "call" and (ir.callee_name(ch[1]["fn"]) or "") == "core::str::<impl str>::is_char_boundary":
+                ct = ch[1]
+                if self._str_root(view, ct["args"][0]) == root:
+                    c = view.const_of_operand(ct["args"][1])
+                    if c is None and ct["args"][1].get("o") == "const":
+                        c = ct["args"][1].get("v")
+                    if isinstance(c, int):
+                        bounds, truthy = [c], lambda v: bool(v)
+            elif ch[0] == "rv" and ch[1]["r"] == "discr" and not ch[1]["pl"]["p"]:
+                dd = view.single_def(ch[1]["pl"]["l"])
+                if dd is not None and dd[1] == "term" and (ir.callee_name(dd[2]["fn"]) or "") == "core::str::<impl str>::get":
+                    ct = dd[2]
+                    if self._str_root(view, ct["args"][0]) == root:
+                        ra = self._range_arg(view, None, None, ct["args"][1])
+                        cs = []
+                        if ra is not None:
+                            for o in (ra[1], ra[2]):
+                                if o is None:
+                                    continue
+                                c = view.const_of_operand(o)
+                                if c is None and o.get("o") == "const":
+                                    c = o.get("v")
+                                cs.append(c)
+                        if cs and all(isinstance(c, int) for c in cs):
+                            bounds, truthy = cs, lambda v: v == 1     # Option discriminant 1 = Some
+            if bounds is None:
+                continue
+            for s_ in view.succ.get(b, []):
+                vals = [v_ for v_, bb in t["targets"] if bb == s_]
+                if t["otherwise"] == s_ or not vals:
+                    continue
+                if all(truthy(v_) for v_ in vals) and view.edge_dominates(b, s_, site_block):
+                    known.update(bounds)
+        return known
+
+    def _discharge_str_index(self, view, a, st, site, recv, kind, s_op, e_op):
+        """&s[a..b] on a str: every constant bound must be a known char boundary <= len (a <= b by construction of
+        the constants); the str must be an unmodified parameter or local."""
+        root = self._str_root(view, recv)
+        if root is None:
+            return None
+        known = self._known_boundaries(view, site.block, root)
+        need = []
+        for o in (s_op, e_op):
+            if o is None:
+                continue
+            iv, _ = a.eval_operand(st, o)
+            if iv is None or iv[0] != iv[1]:
+                return None
+            need.append(iv[0])
+        if kind == "full":
+            return "RangeFull"
+        if need == sorted(need) and all(c in known for c in need):
+            return "D-str: bounds %s are char boundaries established by a dominating is_char_boundary / get(..) test" % need
+        return None
+
     def _discharge_foreign(self, view, a, st, site):
         t = site.term
         name = site.callee
@@ -1078,8 +1273,7 @@ class Totality:
                 return None
             kind, s_op, e_op = ra
             if "for str>" in name:
-                # char-boundary condition is not decided here
-                return None
+                return self._discharge_str_index(view, a, st, site, recv, kind, s_op, e_op)
             if kind == "full":
                 return "RangeFull"
             if kind == "to":
@@ -1151,7 +1345,8 @@ class Totality:
             why = []
             for pr in rs.preds:
                 if pr[0] == "test":
-                    if self.dominated_by_test(view, bi, pr[1], pr[2]):
+                    argop = args[pr[3] - 1] if len(pr) > 3 and pr[3] and 0 <= pr[3] - 1 < len(args) else None
+                    if self.dominated_by_test(view, bi, pr[1], pr[2], argop):
                         why.append("dominated by %s==%s" % (pr[1].split("::")[-1], pr[2]))
                         continue
                     ok_all = False
@@ -1198,6 +1393,43 @@ def fn_items_in_type(t):
         for x in t["ts"]:
             out.extend(fn_items_in_type(x))
     return out
+
+
+_CMP_NEG = {"Lt": "Ge", "Ge": "Lt", "Gt": "Le", "Le": "Gt", "Eq": "Ne", "Ne": "Eq"}
+_CMP_SWAP = {"Lt": "Gt", "Gt": "Lt", "Le": "Ge", "Ge": "Le", "Eq": "Eq", "Ne": "Ne"}
+
+
+def cond_forms(descr, truth):
+    """All equivalent (description, truth) spellings of a comparison condition: `a >= b` false is `a < b` true is
+    `b > a` true ...  Non-comparison descriptions (call names) have one form."""
+    out = {(descr, truth)}
+    m = re.fullmatch(r"(Lt|Le|Gt|Ge|Eq|Ne)\((.*)\)", descr)
+    if not m:
+        return out
+    op, inner = m.group(1), m.group(2)
+    # split the two operands at the top-level comma
+    depth, cut = 0, None
+    for i, ch in enumerate(inner):
+        if ch in "([":
+            depth += 1
+        elif ch in ")]":
+            depth -= 1
+        elif ch == "," and depth == 0:
+            cut = i
+            break
+    if cut is None:
+        return out
+    a, b = inner[:cut], inner[cut + 1:]
+    for o, x, y, t in ((op, a, b, truth), (_CMP_NEG[op], a, b, not truth)):
+        out.add(("%s(%s,%s)" % (o, x, y), t))
+        out.add(("%s(%s,%s)" % (_CMP_SWAP[o], y, x), t))
+    return out
+
+
+def cond_holds(req_cond, req_truth, conds):
+    """A required dominating condition is among `conds` in any equivalent spelling."""
+    forms = cond_forms(req_cond, req_truth)
+    return any((d, t) in forms for d, t in conds)
 
 
 def dominating_conditions(view, site_block):
